@@ -1,13 +1,19 @@
 (* C12 correspondence: cases carry the implementation's observations; `mism` lists the indices on
    which the model's prediction disagrees.
-   CEst       : the ownership model's prediction for fit and for every first-pass apply call
-                (safe program => every caller buffer unchanged, constructor parameters unchanged);
-                programs the analysis rejects (open findings) make no prediction.
+   CEst       : per call (fit first, then every first-pass apply call) the ownership program of the
+                function that actually ran (`type(est).<method>.__qualname__`): the program
+                REGENERATED from /repo's source (C12/Own.v, `MGen k bits`: bits = the values of
+                the method's own branch conditions that the estimator's parameters and the
+                container decide) when there is one, else the generic copy-first / fit shape.
+                Prediction of a program the analysis accepts: every caller buffer unchanged after
+                the call, the result is not the caller's object when the run says it is a new one,
+                constructor parameters unchanged by apply-type calls.  Programs the analysis
+                rejects make no prediction (C12/Bridge.v proves there is none among the generated).
    CPool      : the observed completion order of EnsembleForecaster's member fits, fed to the pool
                 semantics, must deliver the observed `forecasters_` contents.
    CIntervals : _get_intervals over the recorded generator calls must give the observed array. *)
 From Coq Require Import ZArith List Bool Arith.
-Require Import SkV.C12.Model.
+Require Import SkV.C12.Model SkV.C12.Own.
 Import ListNotations.
 
 Definition zlist_eqb (a b : list Z) : bool :=
@@ -17,43 +23,60 @@ Definition store_eqb (a b : store) : bool :=
 Definition pairs_eqb (a b : list (Z * Z)) : bool :=
   zlist_eqb (map fst a) (map fst b) && zlist_eqb (map snd a) (map snd b).
 
-Inductive disc := DCopyFirst | DHampel (frame : bool) | DImputer (m : imethod) (frame : bool).
+Inductive mref := MCopyFirst | MFitShape | MGen (k : nat) (bits : list bool).
 
-Definition kkeep (_ cb : buf) : buf := cb.
-Definition kone (_ _ : buf) : nat := 1%nat.
-Definition kfalse (_ _ : buf) : bool := false.
+Definition kfn (_ : buf) (_ : list buf) : buf := [].
+Definition kone (_ : buf) (_ : list buf) : nat := 1%nat.
 
-(* the program of the estimator's apply-type method; `w` = what an in-place write would store
-   (taken from the observation - only rejected programs ever use it on a caller buffer) *)
-Definition prog_of (d : disc) (w : buf) : prog :=
-  match d with
-  | DCopyFirst => copy_first kkeep
-  | DHampel frame => hampel_now kkeep kkeep (fun _ _ => w) (fun _ _ => frame) kfalse kone kone
-  | DImputer m frame => imputer kkeep (fun _ _ => w) kkeep kfalse kone m frame
+(* the program of the function that ran.  Contents are irrelevant for the prediction (an accepted
+   program never writes a caller buffer), every loop runs once, branch k goes as bit k says *)
+Definition prog_of (r : mref) : method :=
+  match r with
+  | MCopyFirst => copy_first kfn
+  | MFitShape => fit_shape kfn kfn
+  | MGen k bits =>
+      nth k (gen_methods (fun i _ _ => nth i bits false) (fun _ => kfn) (fun _ => kone))
+          (copy_first kfn)
   end.
 
-Definition call_ok (self_ok : bool) (mkp : buf -> prog) (c : store * store) : bool :=
-  let before := fst c in
-  let after := snd c in
-  let p := mkp (hd [] after) in
-  if is_safe self_ok p
-  then store_eqb (firstn (length before) (fst (apply (length before) p (before ++ [[]]) 0))) after
+Definition so_of (r : mref) : bool :=
+  match r with
+  | MCopyFirst => false
+  | MFitShape => true
+  | MGen k _ => nth k gen_self_ok false
+  end.
+
+Definition accepted (r : mref) : bool := is_safe (so_of r) (prog_of r).
+
+(* (program, (caller buffers before, after), the result IS the first argument object) *)
+Definition call := (mref * (store * store) * bool)%type.
+
+Definition call_ok (c : call) : bool :=
+  let '(r, (before, after), res_is_arg) := c in
+  let n := length before in
+  if accepted r
+  then let res := apply n (prog_of r) (before ++ [[]]) 0 in
+       store_eqb (firstn n (fst res)) after &&
+       match r with
+       | MGen _ _ => if (n <=? snd res)%nat then negb res_is_arg else true
+       | _ => true
+       end
   else true.
 
 Inductive case :=
-  | CEst (d : disc) (calls : list (store * store)) (params_changed : bool)
+  | CEst (calls : list call) (params_changed : bool)
   | CPool (a b : Z) (tasks : list Z) (sched : list nat) (observed : list Z)
   | CIntervals (ni : nat) (mi sl : Z) (draws : list (Z * Z)) (observed : option (list (Z * Z))).
 
 Definition check (c : case) : bool :=
   match c with
-  | CEst d calls pc =>
+  | CEst calls pc =>
       match calls with
       | [] => false
-      | fitc :: applies =>
-          call_ok true (fun _ => fit_shape kkeep kkeep) fitc &&
-          forallb (call_ok false (prog_of d)) applies &&
-          (if is_safe false (prog_of d []) then negb pc else true)
+      | _ :: applies =>
+          forallb call_ok calls &&
+          (if forallb (fun c => accepted (fst (fst c)) && negb (so_of (fst (fst c)))) applies
+           then negb pc else true)
       end
   | CPool a b tasks sched observed =>
       match parallel_map (pure_task (St := unit) (fun t => (a * t + b)%Z)) tasks tt sched with
